@@ -296,12 +296,23 @@ Definition parse_aux (aux : list Z) : outcome (list (list Z)) :=
 
 (** * Reader.Read on the bytes of one record (after the block size)
 
-    Result: the record and whether any retained field still aliases the
-    reader's shared buffer.  Errors: 10 invalid read name length, 11 invalid
+    Result: the record and whether any retained field still aliases storage
+    the reader reuses for a later record ([storage_reused]; name and CIGAR are
+    always copied).  Errors: 10 invalid read name length, 11 invalid
     sequence length, 12 reference id out of range, 13 mate reference id out of
     range, 20..25 from parseAux, 30 the block is shorter than its own length
     fields say (the buffer's sticky unexpected-EOF error, reported at [done]). *)
 Definition odef {A} (d : A) (o : option A) : A := match o with Some x => x | None => d end.
+
+(** Whether the slices [buffer.bytes] hands out (Seq, Qual, aux) lie in storage
+    that a later Read overwrites.  Inline block: [Reader.buf], unless the block
+    is marked shared and [bytes] copies.  Long block: only if newBuffer does
+    not allocate it in this call.  The three facts are read off newBuffer and
+    buffer.bytes by gen (a block of a record above 4096 bytes is
+    [make([]byte, size)]: each long record has its own allocation). *)
+Definition storage_reused (shared : bool) : bool :=
+  if shared then negb (bam_newBuffer_inline_shared && bam_buffer_bytes_copies)
+  else negb bam_newBuffer_private_fresh.
 
 Definition decode_record (omit nrefs : Z) (shared : bool) (data : list Z) : outcome (rec * bool) :=
   let '(env, b) := read_fixed bam_Read_fixed (data, false) (fun _ => 0) in
@@ -327,11 +338,11 @@ Definition decode_record (omit nrefs : Z) (shared : bool) (data : list Z) : outc
       else
         let '(sq, b) := b_bytes shared b (bam_Read_seqLen lSeq) in
         let '(ql, b) := b_bytes shared b lSeq in
-        if bam_AuxTags <=? omit then Ok (lSeq, odef [] sq, ql, [], false, snd b)
+        if bam_AuxTags <=? omit then Ok (lSeq, odef [] sq, ql, [], storage_reused shared, snd b)
         else
           let '(ax, b) := b_bytes shared b (b_len b) in
           match parse_aux (odef [] ax) with
-          | Ok aa => Ok (lSeq, odef [] sq, ql, aa, false, snd b)
+          | Ok aa => Ok (lSeq, odef [] sq, ql, aa, storage_reused shared, snd b)
           | Err e => Err e
           | Panic w => Panic w
           | Stuck => Stuck
